@@ -2,7 +2,8 @@
 import concurrent.futures as cf
 import hashlib, json, os, re, shutil, subprocess, sys, time
 
-VERIF = "/verif"
+# normally /verif; an isolated evaluation runs a scratch copy of the whole tree
+VERIF = os.path.dirname(os.path.dirname(os.path.realpath(__file__)))
 # an isolated evaluation (tools/isolated.py) redirects the scratch, harness and evidence directories
 WORK = os.environ.get("VERIF_WORK", os.path.join(VERIF, "work"))
 HARNESS = os.environ.get("VERIF_HARNESS", os.path.join(VERIF, "harness"))
